@@ -11,8 +11,8 @@ set_option linter.unusedVariables false
 /-! ### which control calls one legal step emits, in terms of the flags before and after -/
 
 theorem step_eofOutC (v : Variant) (r : Relay) (e : Ev) (h : Shape v r) (hl : legal r e = true) :
-    ((r.s.eof && r.phase == .linked && !(v == .fixed && r.early)) || eofOut .chan (step v r e).2)
-      = ((step v r e).1.s.eof && (step v r e).1.phase == .linked && !(v == .fixed && (step v r e).1.early)) := by
+    ((r.s.eof && r.phase == .linked && !(v.fixEarly && r.early)) || eofOut .chan (step v r e).2)
+      = ((step v r e).1.s.eof && (step v r e).1.phase == .linked && !(v.fixEarly && (step v r e).1.early)) := by
   obtain ⟨⟨st, sp, sb, se, sg⟩, ⟨ct, cp, cb, ce, cg⟩, ph, ea⟩ := r
   obtain ⟨h1, h2, h3, h4, h5, h6, h7, h8, h9, h10⟩ := h
   simp only at h1 h2 h3 h4 h5 h6 h7 h8 h9 h10
@@ -42,7 +42,7 @@ theorem step_closeC (v : Variant) (r : Relay) (e : Ev) (h : Shape v r) (hl : leg
   relay_bash e ph v
 
 theorem step_noAssert (v : Variant) (r : Relay) (e : Ev) (h : Shape v r) (hl : legal r e = true) :
-    (step v r e).2.contains .assertFail = true → v = .asIs ∧ r.early = true := by
+    (step v r e).2.contains .assertFail = true → v.fixEarly = false ∧ r.early = true := by
   obtain ⟨⟨st, sp, sb, se, sg⟩, ⟨ct, cp, cb, ce, cg⟩, ph, ea⟩ := r
   obtain ⟨h1, h2, h3, h4, h5, h6, h7, h8, h9, h10⟩ := h
   simp only at h1 h2 h3 h4 h5 h6 h7 h8 h9 h10
@@ -64,14 +64,14 @@ theorem step_trMonoC (v : Variant) (r : Relay) (e : Ev) (h : Shape v r) (hl : le
 
 theorem step_down (v : Variant) (r : Relay) (e : Ev) (h : Shape v r) (hl : legal r e = true) :
     (step v r e).1.s.tr = false → r.s.tr = false ∨ e = .lost .sock ∨ e = .lost .chan ∨ e = .fail ∨
-      (v = .fixed ∧ (step v r e).1.s.eof = true ∧ (step v r e).1.c.eof = true) := by
+      (v.fixEof = true ∧ (step v r e).1.s.eof = true ∧ (step v r e).1.c.eof = true) := by
   obtain ⟨⟨st, sp, sb, se, sg⟩, ⟨ct, cp, cb, ce, cg⟩, ph, ea⟩ := r
   obtain ⟨h1, h2, h3, h4, h5, h6, h7, h8, h9, h10⟩ := h
   simp only at h1 h2 h3 h4 h5 h6 h7 h8 h9 h10
   relay_bash e ph v
 
 theorem step_bothEof (v : Variant) (r : Relay) (e : Ev) (h : Shape v r) (hl : legal r e = true) :
-    v = .fixed → (r.phase = .linked → r.s.eof = true → r.c.eof = true → r.s.tr = false) →
+    v.fixEof = true → (r.phase = .linked → r.s.eof = true → r.c.eof = true → r.s.tr = false) →
       (step v r e).1.phase = .linked → (step v r e).1.s.eof = true → (step v r e).1.c.eof = true →
       (step v r e).1.s.tr = false := by
   obtain ⟨⟨st, sp, sb, se, sg⟩, ⟨ct, cp, cb, ce, cg⟩, ph, ea⟩ := r
@@ -102,6 +102,89 @@ theorem step_lostTr (v : Variant) (r : Relay) (x : Side) (h : Shape v r) (hl : l
   cases x <;> cases ph <;>
     simp only [step, legal, closeFwd, Relay.get, Relay.set, Relay.has, Side.other] at * <;> grind
 
+/-- repaired variant: the channel-to-socket direction needs no side condition -/
+theorem step_c2s_fixed (v : Variant) (hv : v.fixEarly = true) (r : Relay) (e : Ev) (h : Shape v r)
+    (hl : legal r e = true) : sent .sock (step v r e).2 = dataOf .chan e := by
+  obtain ⟨⟨st, sp, sb, se, sg⟩, ⟨ct, cp, cb, ce, cg⟩, ph, ea⟩ := r
+  obtain ⟨h1, h2, h3, h4, h5, h6, h7, h8, h9, h10⟩ := h
+  obtain ⟨fe, fl⟩ := v
+  simp only at h1 h2 h3 h4 h5 h6 h7 h8 h9 h10 hv
+  subst hv
+  have h9' := h9 rfl
+  cases e with
+  | data x d =>
+    cases x <;> cases ph <;>
+      simp only [step, legal, dataOf, Relay.get, Relay.set, Relay.has, Side.other] at hl ⊢ <;>
+      relay_finish <;> (try (cases st <;> simp_all [sent]))
+  | eof x =>
+    cases x <;> cases ph <;> cases fe <;>
+      simp only [step, legal, dataOf, closeFwd, Relay.get, Relay.set, Relay.has, Side.other] at hl ⊢ <;>
+      relay_finish <;> (try (cases st <;> simp_all [sent]))
+  | lost x =>
+    cases x <;> cases ph <;>
+      simp only [step, legal, dataOf, closeFwd, Relay.get, Relay.set, Relay.has, Side.other] at hl ⊢ <;>
+      relay_finish <;> (try (cases st <;> simp_all [sent]))
+  | pauseW x =>
+    cases x <;> cases ph <;>
+      simp only [step, legal, dataOf, closeFwd, Relay.get, Relay.set, Relay.has, Side.other] at hl ⊢ <;>
+      relay_finish <;> (try (cases st <;> simp_all [sent]))
+  | resumeW x =>
+    cases x <;> cases ph <;>
+      simp only [step, legal, dataOf, closeFwd, Relay.get, Relay.set, Relay.has, Side.other] at hl ⊢ <;>
+      relay_finish <;> (try (cases st <;> simp_all [sent]))
+  | confirm =>
+    cases ph <;>
+      simp only [step, legal, dataOf, closeFwd, Relay.get, Relay.set, Relay.has, Side.other] at hl ⊢ <;>
+      relay_finish <;> (try (cases st <;> simp_all [sent]))
+  | fail =>
+    cases ph <;>
+      simp only [step, legal, dataOf, closeFwd, Relay.get, Relay.set, Relay.has, Side.other] at hl ⊢ <;>
+      relay_finish <;> (try (cases st <;> simp_all [sent]))
+
+/-- a data event that the transports may deliver is written to the other side at once (linked, no early loss) -/
+theorem step_flow (v : Variant) (r : Relay) (x : Side) (d : Bytes) (h : Shape v r)
+    (hl : legal r (.data x d) = true) (hp : r.phase = .linked) (he : r.early = false) :
+    step v r (.data x d) = (r, [.write x.other d]) := by
+  obtain ⟨⟨st, sp, sb, se, sg⟩, ⟨ct, cp, cb, ce, cg⟩, ph, ea⟩ := r
+  obtain ⟨h1, h2, h3, h4, h5, h6, h7, h8, h9, h10⟩ := h
+  simp only at h1 h2 h3 h4 h5 h6 h7 h8 h9 h10 hp he
+  subst hp he
+  cases x <;> simp only [step, legal, Relay.get, Relay.set, Relay.has, Side.other] at hl ⊢ <;> grind
+
+/-- the state after "socket lost, then channel confirmed" in the code as it stands: the channel-side half is up and
+    linked to a dead socket-side half -/
+def Stuck (r : Relay) : Prop :=
+  r.early = true ∧ r.c.tr = true ∧ r.s.gone = true ∧ r.phase = .linked
+
+theorem step_stuck (v : Variant) (hv : v.fixEof = false) (r : Relay) (e : Ev) (h : Shape v r) (hs : Stuck r)
+    (hl : legal r e = true) (hne : e ≠ .lost .chan) :
+    Stuck (step v r e).1 ∧ closeOut .chan (step v r e).2 = false := by
+  obtain ⟨fe, fl⟩ := v
+  simp only at hv
+  subst hv
+  obtain ⟨⟨st, sp, sb, se, sg⟩, ⟨ct, cp, cb, ce, cg⟩, ph, ea⟩ := r
+  obtain ⟨h1, h2, h3, h4, h5, h6, h7, h8, h9, h10⟩ := h
+  obtain ⟨s1, s2, s3, s4⟩ := hs
+  simp only at h1 h2 h3 h4 h5 h6 h7 h8 h9 h10 s1 s2 s3 s4
+  subst s1 s2 s3 s4
+  unfold Stuck
+  cases e with
+  | data x d =>
+    cases x <;> simp only [step, legal, closeOut, Relay.get, Relay.set, Relay.has, Side.other] at hl ⊢ <;> grind
+  | eof x =>
+    cases x <;> simp only [step, legal, closeOut, closeFwd, Relay.get, Relay.set, Relay.has, Side.other] at hl ⊢ <;>
+      grind
+  | lost x =>
+    cases x
+    · simp only [legal, Relay.get, Relay.has] at hl; simp at hl
+    · exact absurd rfl hne
+  | pauseW x =>
+    cases x <;> simp only [step, legal, closeOut, Relay.get, Relay.set, Relay.has, Side.other] at hl ⊢ <;> grind
+  | resumeW x =>
+    cases x <;> simp only [step, legal, closeOut, Relay.get, Relay.set, Relay.has, Side.other] at hl ⊢ <;> grind
+  | confirm => simp only [legal] at hl; simp at hl
+  | fail => simp only [legal] at hl; simp at hl
+
 /-! ### the invariant over histories -/
 
 structure Hist (v : Variant) (r : Relay) (evs : List Ev) (outs : List Out) : Prop where
@@ -113,16 +196,16 @@ structure Hist (v : Variant) (r : Relay) (evs : List Ev) (outs : List Out) : Pro
   goneC : r.c.gone = lostIn .chan evs
   linked : (r.phase == .linked) = evs.contains .confirm
   failed : (r.phase == .failed) = evs.contains .fail
-  eofOutC : eofOut .chan outs = (r.s.eof && r.phase == .linked && !(v == .fixed && r.early))
+  eofOutC : eofOut .chan outs = (r.s.eof && r.phase == .linked && !(v.fixEarly && r.early))
   eofOutS : eofOut .sock outs = (r.c.eof && !r.early)
   closeS : closeOut .sock outs = !r.s.tr
   closeC : closeOut .chan outs = (r.phase == .linked && !r.c.tr)
-  noAssert : outs.contains .assertFail = true → v = .asIs ∧ r.early = true
+  noAssert : outs.contains .assertFail = true → v.fixEarly = false ∧ r.early = true
   lostS : lostIn .sock evs = true → r.s.tr = false
   lostC : lostIn .chan evs = true → r.c.tr = false
   down : r.s.tr = false → lostIn .sock evs = true ∨ lostIn .chan evs = true ∨ evs.contains .fail = true ∨
-      (v = .fixed ∧ r.s.eof = true ∧ r.c.eof = true)
-  bothEof : v = .fixed → r.phase = .linked → r.s.eof = true → r.c.eof = true → r.s.tr = false
+      (v.fixEof = true ∧ r.s.eof = true ∧ r.c.eof = true)
+  bothEof : v.fixEof = true → r.phase = .linked → r.s.eof = true → r.c.eof = true → r.s.tr = false
   earlyWhy : r.early = true → ∃ pre post, evs = pre ++ .confirm :: post ∧ lostIn .sock pre = true
   openTr : r.phase = .opening → r.s.tr = false → lostIn .sock evs = true
 
